@@ -37,6 +37,7 @@ class Rewrite:
     only: tuple = ()   # restrict to items whose qualified name is listed
     flags: int = 0
     balanced: bool = False   # pattern ends at an opening delimiter; replace through its matching closer
+    skip: tuple = ()   # do not apply to items whose qualified name is listed
 
 
 @dataclass
@@ -116,6 +117,7 @@ class Contracts:
         self.loops = {}
         self.proofs = {}
         self.closures = {}
+        self.nested = {}
         self.autoreveal = {}
         self.scsfacts = set()
         self.strlits = set()
@@ -153,6 +155,12 @@ class Contracts:
                 parts = s.split()
                 cur = ('closure', parts[1], parts[2], ln, {})
                 buf = []
+            elif s.startswith('@nestedfn '):
+                parts = s.split()
+                cur = ('nested', parts[1], parts[2], ln, {})
+                buf = []
+            elif s.startswith('@ret ') and cur and cur[0] == 'nested':
+                cur[4]['ret'] = s[5:].strip()
             elif s.startswith('@params ') and cur and cur[0] == 'closure':
                 cur[4]['params'] = s[8:].strip()
             elif s.startswith('@ret ') and cur and cur[0] == 'closure':
@@ -184,6 +192,8 @@ class Contracts:
                     self.loops.setdefault(cur[1], {})[cur[2]] = (text, cur[3])
                 elif cur[0] == 'closure':
                     self.closures.setdefault(cur[1], {})[cur[2]] = (text, cur[3], cur[4])
+                elif cur[0] == 'nested':
+                    self.nested.setdefault(cur[1], {})[cur[2]] = (text, cur[3], cur[4])
                 else:
                     self.proofs.setdefault(cur[1], []).append((cur[2], cur[3], cur[4], text, cur[5], cur[6]))
                 cur = None
@@ -318,6 +328,8 @@ class UnitBuild:
         rws = (list(self.unit.REWRITES) if item.unit_rewrites else []) + list(item.rewrites)
         for rw in rws:
             if rw.only and item.q() not in rw.only:
+                continue
+            if rw.skip and item.q() in rw.skip:
                 continue
             if rw.balanced:
                 n = 0
@@ -767,6 +779,24 @@ class UnitBuild:
                 inserts.append((j, ('}', 'contract', ct[1] + 1)))
                 body = body[:mm.start()] + ' ' * (mm.end() - mm.start()) + body[mm.end():]
                 self.count('S-closure-contract', 1)
+        # contracts of fn items nested in the body: `fn NAME(..) -> T {` => `fn NAME(..) -> (ret: T) <contract> {`
+        for nname, (ntext, nln, nopts) in self.contracts.nested.get(q, {}).items():
+            nm = re.search(r'\bfn\s+%s\s*\(' % re.escape(nname), bm)
+            if not nm:
+                raise ExtractError('nested fn %s not found in %s' % (nname, q))
+            pclose = match_delim(bm, nm.end() - 1)
+            nlb = bm.index('{', pclose)
+            sigtail = body[pclose + 1:nlb]
+            if nopts.get('ret'):
+                am = re.match(r'\s*->\s*(.*?)\s*$', sigtail, re.S)
+                if not am:
+                    raise ExtractError('@ret on nested fn %s without return type' % nname)
+                body = body[:pclose + 1] + ' ' * (nlb - pclose - 1) + body[nlb:]
+                inserts.append((nlb, (' -> (%s: %s)\n%s\n' % (nopts['ret'], am.group(1), ntext), 'contract', nln + 1)))
+            else:
+                inserts.append((nlb, ('\n' + ntext + '\n', 'contract', nln + 1)))
+            self.used_nested = getattr(self, 'used_nested', set()) | {(q, nname)}
+            self.count('S-nested-contract', 1)
         # proof blocks
         for idx, (where, rx, nth, ptext, pln, parm) in enumerate(self.contracts.proofs.get(q, [])):
             if ptext.count('{') != ptext.count('}'):
@@ -826,7 +856,8 @@ class UnitBuild:
         if canary:
             self.canaries.append(name)
         elif it.canary and (os.environ.get('VERIF_CANARIES', '1') == '1'
-                            or (os.environ.get('VERIF_CANARIES') == 'noparts' and not it.contract_q)):
+                            or (os.environ.get('VERIF_CANARIES') == 'noparts' and not it.contract_q
+                                and getattr(self.unit, 'QUICK_CANARIES', True))):
             self.emit_fn(it, text, line0, canary=True)
 
     # ------------------------------------------------------------------
